@@ -136,6 +136,8 @@ def run_shard(task):
         "fps": [], "labels": {}, "samples": [], "known": {}, "violations": [],
         "error": None, "wall": 0.0, "excluded_reported": 0,
     }
+    if os.environ.get("VERIF_SELFTEST_CRASH") == task["sub"]:
+        os._exit(9)  # self-test of the runner: a worker that dies must give exit 2 at once
     try:
         os.environ["VERIF_TIER"] = task.get("tier", "quick")
         os.environ["VERIF_SHARD_SALT"] = str(task["seed"])
@@ -399,30 +401,56 @@ def main(argv=None):
     results, errors, violations = [], [], []
     regress_n = 0
     # one fresh process per shard: Hypothesis harvests constants from the modules a process has
-    # imported, so with reused workers the cases of a shard would depend on what ran there before
-    with ctx.Pool(min(args.jobs, max(1, len(tasks) + 1)), maxtasksperchild=1) as pool:
-        rr = pool.apply_async(replay_task, ({"prop": prop, "paths": regress},)) if regress else None
-        it = pool.imap_unordered(dispatch, tasks)
-        for _ in range(len(tasks)):
+    # imported, so with reused workers the cases of a shard would depend on what ran there before.
+    # concurrent.futures reports a worker that died (BrokenProcessPool) at once instead of waiting
+    # for the time budget.
+    from concurrent.futures import FIRST_COMPLETED, ProcessPoolExecutor, wait
+
+    ex = ProcessPoolExecutor(max_workers=min(args.jobs, max(1, len(tasks) + 1)), mp_context=ctx,
+                             max_tasks_per_child=1)
+    try:
+        pending = {ex.submit(dispatch, t): t for t in tasks}
+        rr = ex.submit(replay_task, {"prop": prop, "paths": regress}) if regress else None
+        if rr is not None:
+            pending[rr] = None
+        broken = False
+        while pending and not broken:
             remaining = budget - (time.time() - t0)
-            try:
-                res = it.next(timeout=max(1.0, remaining))
-            except mp.TimeoutError:
+            done, _ = wait(list(pending), timeout=max(1.0, remaining), return_when=FIRST_COMPLETED)
+            if not done:
                 errors.append(f"time budget of {budget}s exhausted (inconclusive)")
-                pool.terminate()
                 break
-            results.append(res)
-            if res["error"]:
-                errors.append(f"{res['sub']}#{res['shard']}: {res['error']}")
-        if rr is not None and not errors:
-            r = rr.get(timeout=max(1.0, budget - (time.time() - t0)))
-            if r["error"]:
-                errors.append("regress replay: " + r["error"])
-            for x in r["results"]:
-                regress_n += 1
-                if not x["ok"]:
-                    violations.append({"sub": x["sub"], "key": x["key"], "detail": x["detail"],
-                                       "case": x["case"], "path": os.path.relpath(x["path"], VERIF_DIR)})
+            for f in done:
+                task = pending.pop(f)
+                try:
+                    res = f.result()
+                except BaseException as e:  # noqa: BLE001  (worker died / could not be started)
+                    what = f"{task['sub']}#{task['shard']}" if task else "regress replay"
+                    errors.append(f"{what}: worker failed: {type(e).__name__}: {e}")
+                    broken = True
+                    continue
+                if f is rr:
+                    if res["error"]:
+                        errors.append("regress replay: " + res["error"])
+                    for x in res["results"]:
+                        regress_n += 1
+                        if not x["ok"]:
+                            violations.append({"sub": x["sub"], "key": x["key"], "detail": x["detail"],
+                                               "case": x["case"],
+                                               "path": os.path.relpath(x["path"], VERIF_DIR)})
+                    continue
+                results.append(res)
+                if res["error"]:
+                    errors.append(f"{res['sub']}#{res['shard']}: {res['error']}")
+    finally:
+        procs = list(getattr(ex, "_processes", {}).values())
+        ex.shutdown(wait=False, cancel_futures=True)
+        if pending:
+            for pr in procs:
+                try:
+                    pr.kill()
+                except Exception:  # noqa: BLE001
+                    pass
 
     # aggregate
     per_sub = {}
